@@ -174,6 +174,7 @@ class Monitors:
         T = ns.Tensor
         BF = ns.F.BackwardFunction
         orig_backward = T.backward
+        self.orig_backward = orig_backward
         orig_call = BF.__call__
 
         def bf_call(self_bf):
